@@ -156,6 +156,22 @@ func stateModules(incPaths []string) []stateMod {
 				return rep(t.K, func(j int) string { return stmt + ` '` + incPaths[j-1] + `';` })
 			},
 			post: `echo function_exists('c20_inc') ? c20_inc() : 'none', ",", function_exists('c20_inc2') ? c20_inc2() : 'none', ",", function_exists('c20_inc3') ? c20_inc3() : 'none', ",", function_exists('c20_inc4') ? c20_inc4() : 'none';`},
+		{name: "include_value",
+			// files that RETURN an object / an array, included twice: the value handed out by the
+			// second include must be the program's own, whatever an earlier program did with its copy
+			probe: `$p1 = require '` + incPaths[4] + `'; $p2 = require '` + incPaths[4] + `'; $q1 = include '` + incPaths[8] + `'; $q2 = include_once '` + incPaths[8] + `'; ` +
+				`echo is_object($p1) ? $p1->n . $p1->who : 'noobj', ",", is_object($p2) ? $p2->n . $p2->who : 'noobj', ",", is_array($q1) ? $q1['n'] . $q1['who'] : var_export($q1, true), ",", is_array($q2) ? $q2['n'] . $q2['who'] : var_export($q2, true);`,
+			touch: func(id string, t touchSpec) string {
+				stmt := []string{"require", "include", "require_once"}[t.V%3]
+				return rep(t.K, func(j int) string {
+					return fmt.Sprintf(`$c20_rv = %s '%s'; if (is_object($c20_rv)) { $c20_rv->n += 40; $c20_rv->who = 'changed-by-%s'; } $c20_av = %s '%s'; if (is_array($c20_av)) { $c20_av['n'] = 99; }`,
+						stmt, incPaths[4+j-1], id, stmt, incPaths[8+j-1])
+				})
+			},
+			post: rep(4, func(j int) string {
+				return fmt.Sprintf(`$x = require '%s'; $y = include '%s'; $z = include '%s'; echo is_object($y) ? $y->n . $y->who : 'noobj', "/", is_array($z) ? $z['n'] . $z['who'] : var_export($z, true), ";";`,
+					incPaths[4+j-1], incPaths[4+j-1], incPaths[8+j-1])
+			})},
 		{name: "object_ids",
 			probe: `$t = new stdClass(); var_dump($t); echo spl_object_id($t) > 0 ? 'id' : 'noid';`,
 			touch: func(id string, t touchSpec) string {
@@ -229,6 +245,22 @@ func stateModules(incPaths []string) []stateMod {
 			touch: func(id string, t touchSpec) string { return `throw new Exception("uncaught-in-` + id + `");` }},
 	}
 	return mods
+}
+
+// writeIncFiles writes the 12 helper files of the include modules and returns their paths:
+// [0..3] define a function, [4..7] return an object, [8..11] return an array.
+func writeIncFiles(dir string) []string {
+	var out []string
+	for j := 1; j <= 4; j++ {
+		out = append(out, writeProg(dir, "c20_inc"+sfx(j), incFileSource(j)))
+	}
+	for j := 1; j <= 4; j++ {
+		out = append(out, writeProg(dir, "c20_ret"+sfx(j), "<?php\n$c20_o = new stdClass();\n$c20_o->n = 1;\n$c20_o->who = 'file"+sfx(j)+"';\nreturn $c20_o;\n"))
+	}
+	for j := 1; j <= 4; j++ {
+		out = append(out, writeProg(dir, "c20_arr"+sfx(j), "<?php\nreturn ['n' => 1, 'who' => 'file"+sfx(j)+"'];\n"))
+	}
+	return out
 }
 
 // incFileSource is the j-th helper file of the include module
